@@ -24,6 +24,15 @@ R05g an ended block runs no further line - whoever walks it: a Block in a Watch/
      of the program by the main flow. In _visit_children every `self.visit(child)` is dominated by the false outcome of
      `self._is_in_ended_block(child)` itself (a conjunction with e.g. `not self._in_interrupt` does not establish it): otherwise the
      lines after `End block` (issued by a nested Watch) run although the block has ended, and what follows the block starts late.
+R05h End blocks agrees with End block (siblings): the blocks it ends are the locked blocks that are not block_ended either (R05d's
+     clause for visit_EndBlocksNode), and the block it names as the new innermost one is the next element of that list whenever
+     there is one (`xs[i + 1] if i + 1 < len(xs)`; a bound of `len(xs) - 1` names "" for the block below the outermost).
+R05i nothing of an ended block starts - a Block waiting for the lock included: the lock-wait loop of visit_BlockNode tests
+     `_is_in_ended_block(node)` before it tries to take the lock (the enclosing block can be ended while the Block waits; started
+     then, its own End block is skipped as a line of an ended block and it never ends).
+R05j a body is reset only when no watch/alarm of it is executing: the re-arm of visit_AlarmNode is dominated by a waiting loop on
+     the executing handlers of its body (sibling of C41 R41h for macro calls) - the reset clears the lock of a Block such a handler
+     has started, without a block_end.
 Decides these shapes; the single-chain invariant over all reachable interpreter states is data-dependent.
 """
 from __future__ import annotations
@@ -143,7 +152,25 @@ def run(ctx) -> None:
             ctx.fail("R05b", vb, b.ast, inst, "a block can start its body without announcing itself as the active block")
     rel = [n for n in g.nodes if n.kind == "stmt" and any(t.attr == "lock_acquired" and isinstance(v, ast.Constant) and v.value is False
                                                            for t, v, st in assigned_attrs(n.ast))]
-    p = g.path_to_exit_avoiding(None, lambda n: any(n.id == r.id for r in rel), follow_exc=False)
+    # a return on which the lock is known not to be held needs no release: the test `<node>.lock_acquired` was false on the way
+    # there and nothing that can take the lock (the acquire helper, an assignment of the flag) lies between the test and the return
+    npar_b = vb.node.args.args[1].arg
+
+    safe_returns: set[int] = set()
+    for wl in ast.walk(vb.node):
+        if isinstance(wl, ast.While) and norm(wl.test) == f"not {npar_b}.lock_acquired":
+            for st in wl.body:
+                takes = any((isinstance(c, ast.Call) and isinstance(c.func, ast.Name) and "acquire" in c.func.id) for c in ast.walk(st)) \
+                    or any(t.attr == "lock_acquired" for t, v, s_ in assigned_attrs(st))
+                if takes:
+                    break
+                for r_ in ast.walk(st):
+                    if isinstance(r_, ast.Return):
+                        safe_returns.add(id(r_))
+
+    def _exit_without_lock(n) -> bool:
+        return n.kind == "stmt" and isinstance(n.ast, ast.Return) and id(n.ast) in safe_returns
+    p = g.path_to_exit_avoiding(None, lambda n: any(n.id == r.id for r in rel) or _exit_without_lock(n), follow_exc=False)
     inst = "visit_BlockNode: lock released on every normal path to the exit"
     if rel and p is None:
         ctx.ok("R05b", inst)
@@ -224,6 +251,7 @@ def run(ctx) -> None:
         else:
             ctx.fail("R05c", vb, lp.ast, inst, f"the iterated expression `{src[1]}` is not derived from the lock flags")
     _r05d(ctx, pi)
+    _r05hij(ctx, pi)
     ctx.rule("R05f", "blocks started by an aborted interrupt are released")
     abf = pi.methods["_abort_block_interrupts"]
     ctx.analysed(abf)
@@ -328,3 +356,74 @@ def _r05d(ctx, pi):
         ctx.fail("R05d", eb, ended[0], inst, f"the block comes from {srcs[:2]} without excluding blocks that were already ended: a second End block "
                  "while the ended inner block still holds its lock ends that block again (duplicate block_end) and the enclosing block "
                  "is never ended")
+
+
+def _r05hij(ctx, pi):
+    from ..util import local_all_defs
+    ctx.rule("R05h", "End blocks ends only blocks that are not ended yet and names the next enclosing block")
+    ctx.rule("R05i", "a Block that waits for the lock does not start inside an ended block")
+    ctx.rule("R05j", "an Alarm re-arms only when no handler of its body is executing")
+    ebs = pi.methods["visit_EndBlocksNode"]
+    ctx.analysed(ebs)
+    defs = local_all_defs(ebs)
+    # the list the loop ranges over
+    ended = [(t, st) for t, v, st in assigned_attrs(ebs.node) if t.attr == "block_ended" and isinstance(v, ast.Constant) and v.value is True]
+    if not ended:
+        raise AnchorError("visit_EndBlocksNode: <block>.block_ended = True not found")
+    lists = {x.value.id for x in ast.walk(ebs.node) if isinstance(x, ast.Subscript) and isinstance(x.value, ast.Name)
+             and any("get_locked_blocks" in norm(d) for d in defs.get(x.value.id, []))}
+    lists |= {x.iter.id for x in ast.walk(ebs.node) if isinstance(x, ast.For) and isinstance(x.iter, ast.Name)
+              and any("get_locked_blocks" in norm(d) for d in defs.get(x.iter.id, []))}
+    if not lists:
+        raise AnchorError("visit_EndBlocksNode: list of locked blocks not found")
+    inst = "visit_EndBlocksNode: the blocks to end are the locked blocks that are not block_ended"
+    if all(any("block_ended" in norm(d) for d in defs.get(nm, [])) for nm in lists):
+        ctx.ok("R05h", inst)
+    else:
+        ctx.fail("R05h", ebs, ended[0][1], inst, "End blocks also ends a block that End block has already ended and that still holds its lock "
+                 "while it finishes its current instruction: a second block_end for it - the Block Time stack loses a level it never "
+                 "pushed and reads 0.0 for the rest of the run")
+    for x in ast.walk(ebs.node):
+        if isinstance(x, ast.IfExp) and isinstance(x.body, ast.Subscript) and isinstance(x.body.value, ast.Name) and x.body.value.id in lists \
+                and isinstance(x.test, ast.Compare) and len(x.test.ops) == 1 and isinstance(x.test.ops[0], ast.Lt):
+            idx, bound = norm(x.body.slice), norm(x.test.comparators[0])
+            inst = f"visit_EndBlocksNode: `{norm(x)[:70]}` names the next enclosing block whenever there is one"
+            if norm(x.test.left) == idx and bound == f"len({x.body.value.id})":
+                ctx.ok("R05h", inst)
+            else:
+                ctx.fail("R05h", ebs, x, inst, f"the index `{idx}` is valid up to len({x.body.value.id}) - 1 but the guard is `{norm(x.test)}`: the "
+                         "block_end event of the block below the outermost names no new block although the outermost is still active")
+    # R05i
+    vb = pi.methods["visit_BlockNode"]
+    g = cfg_of(vb)
+    tries = [n for n in g.nodes if any(isinstance(c.func, ast.Name) and c.func.id == "try_acquire_lock" for c in n.calls())]
+    if not tries:
+        raise AnchorError("visit_BlockNode: try_acquire_lock() call not found")
+    npar = vb.node.args.args[1].arg
+    for t in tries:
+        inst = "visit_BlockNode: the lock is tried only when the Block is not inside an ended block"
+        ok = any(isinstance(c, ast.Call) and call_attr(c) == "_is_in_ended_block" and c.args and norm(c.args[0]) == npar and not pol
+                 for tt, pol in g.conditions_at(t) for c in ast.walk(tt))
+        if ok:
+            ctx.ok("R05i", inst)
+        else:
+            ctx.fail("R05i", vb, t.ast, inst, "a Block that waits for the lock while another handler's block holds it takes the lock in the "
+                     "tick after `End blocks` ended everything - inside its ended parent: the Block tag names it, its body (its own "
+                     "End block included) is skipped, it never ends and what follows the parent block never runs")
+    # R05j
+    va = pi.methods["visit_AlarmNode"]
+    ga = cfg_of(va)
+    apar = va.node.args.args[1].arg
+    resets = [n for n in ga.nodes if any(call_attr(c) == "reset_runtime_state" and norm(c.func.value) == apar for c in n.calls())]
+    if not resets:
+        raise AnchorError("visit_AlarmNode: reset of the body not found")
+    for r in resets:
+        inst = "visit_AlarmNode: the body is reset only when no handler of it is executing"
+        ok = any(isinstance(c, ast.Call) and "executing_handler" in (call_attr(c) or "") and c.args and norm(c.args[0]) == apar and not pol
+                 for tt, pol in ga.conditions_at(r) for c in ast.walk(tt))
+        if ok:
+            ctx.ok("R05j", inst)
+        else:
+            ctx.fail("R05j", va, r.ast, inst, "the Alarm completes and resets its body while a Watch of the body is executing a Block: the "
+                     "block's lock is cleared without a block_end, the Block tag keeps naming a block that is not active, and every "
+                     "further invocation adds a block_start without a block_end")
